@@ -77,6 +77,14 @@ class Ctx:
         self.caps = []
         self.exhaustive = None
         self.rule = ""
+        # replay files of earlier runs of this property are stale
+        if os.path.isdir(REPLAY_DIR):
+            for fn in os.listdir(REPLAY_DIR):
+                if fn.startswith(prop + "-") and fn.endswith(".json"):
+                    try:
+                        os.unlink(os.path.join(REPLAY_DIR, fn))
+                    except OSError:
+                        pass
 
     # -- coverage -----------------------------------------------------
     def add(self, key, n=1):
